@@ -501,9 +501,57 @@ def concurrent_generated_names(ctx, rounds):
         ctx.violation("generated-name-handed-out-twice-to-one-simplification:concurrent", f"while two other threads simplified queries holding arg_N names, {len(dup)} of {rounds} simplifications of one chain were handed the same generated name twice, e.g. {dup[0]}", {"concurrent": True, "rounds": rounds})
 
 
+def after_error_history(ctx, n):
+    """history on ONE simplifier object (a back end keeps its transformer): queries it gives up on (its dedicated index error) in
+    between, then queries whose binders carry names of the kind it generates, in a process whose name counter is where those
+    names are. Whatever a failed visit left behind, the later queries keep their meaning"""
+    import random
+
+    import func_adl.ast.function_simplifier as _fs
+    from func_adl.ast.function_simplifier import simplify_chained_calls
+
+    simp = simplify_chained_calls()
+    gave_up = ["Select(EventDataset(), lambda e: (e.x, e.y)[5])", "Select(Select(EventDataset(), lambda e: (e.x, e.y)), lambda t: t[2])", "Select(EventDataset(), lambda e: [e.x][3] + 1)"]
+    for i in range(n):
+        rnd = random.Random(ctx.seed * 7919 + i * 13 + 5)
+        if i % 4 == 0:
+            try:
+                simp.visit(astx.parse_expr(gave_up[(i // 4) % len(gave_up)]))
+                ctx.count("after-error-history:index-error-expected-but-returned")
+            except Exception as e:
+                ctx.count("after-error-history:gave-up:" + type(e).__name__)
+            continue
+        g = Gen(rnd, naming="arglike", method_form=0.0)
+        try:
+            q, _stages = g.chain(rnd.randint(2, 5), rnd.randint(2, 3))
+        except Exception as e:
+            ctx.count("generator-failed:" + type(e).__name__)
+            continue
+        data = datasets(rnd)
+        before = [evaluate(q, d, GLOB) for d in data]
+        if all(b[0] != "ok" for b in before):
+            continue
+        _fs.argument_var_counter = 0
+        ctx.case("after-error:" + astx.dump_fields(q), True)
+        ctx.count("after-error-history:queries")
+        try:
+            out = simp.visit(astx.clone(q))
+        except Exception as e:
+            ctx.count("skipped:simplifier-raised:" + type(e).__name__)
+            continue
+        after = [evaluate(out, d, GLOB) for d in data]
+        for di, (b, a) in enumerate(zip(before, after)):
+            if b[0] == "ok" and a != b:
+                ctx.violation("mismatch-after-a-visit-that-gave-up:" + a[0], f"one simplifier object, after {i // 4 + 1} visits that gave up: dataset#{di}: before={str(b)[:140]} after={str(a)[:140]} | in: {astx.unparse(q)[:240]} | out: {astx.unparse(out)[:240]}", {"after_error_history": True})
+                return
+
+
 def shard_main(ctx):
     install_rule_counters()
     import random
+
+    if ctx.shard == 5 % ctx.nshards and not ctx.threads:
+        after_error_history(ctx, 240 if ctx.tier == "quick" else 4000)
 
     if ctx.shard == 2:
         concurrent_generated_names(ctx, 40 if ctx.tier == "quick" else 1500)
@@ -565,6 +613,10 @@ def shard_main(ctx):
 def replay(ctx, witness):
     install_rule_counters()
     import random
+
+    if witness.get("after_error_history"):
+        after_error_history(ctx, 240)
+        return
 
     q = astx.parse_expr(witness["query"])
     rnd = random.Random(99)
